@@ -2,6 +2,7 @@
 From ASV Require Import Base.
 From ASV.C04 Require Model.
 From ASV.C14 Require Model.
+From ASV.C15 Require Model.
 
 Definition run (l : list Z) : list Z :=
   match l with
@@ -9,6 +10,7 @@ Definition run (l : list Z) : list Z :=
     match p with
     | 4 => C04.Model.run_C04 fn payload
     | 14 => C14.Model.run_C14 fn payload
+    | 15 => C15.Model.run_C15 fn payload
     | _ => bad_input
     end
   | _ => bad_input
